@@ -255,6 +255,10 @@ pub fn finish(ctx: &Ctx, mut rep: Report) -> i32 {
             starved.push(k.clone());
         }
     }
+    if rep.samples.is_empty() && ctx.replay.is_none() {
+        // evidence without a written-out case is no evidence: treat as a harness failure, not as "held"
+        starved.push("samples".to_string());
+    }
     let distinct = rep.nontrivial.len() as u64;
     let mut coverage = serde_json::Map::new();
     coverage.insert("evaluations".into(), json!(rep.evaluations));
